@@ -558,6 +558,41 @@ func runC20(w *World, r *Report) {
 							}
 						}
 					}
+					// the sealing may sit in a helper that hands the sealed bytes back: the write is then at its callers
+					if !direct && how == "" {
+						returned := false
+						for _, ret := range returnsOf(fn) {
+							for _, rv := range ret.Results {
+								if f, via := viaOf(rv, isThis, 0); f && via == "" {
+									returned = true
+								}
+							}
+						}
+						if returned {
+							for _, cs := range staticCallers(w, fn) {
+								csv, isVal := cs.(ssa.Value)
+								if !isVal {
+									continue
+								}
+								isCall := func(v ssa.Value) bool { return v == csv }
+								for _, g := range withHelpers(cs.Parent(), 1) {
+									for _, wc := range callsTo(g, "os.WriteFile", "(*os.File).Write") {
+										wa := wc.Common().Args
+										if len(wa) < 2 {
+											continue
+										}
+										if f, via := viaOf(wa[1], isCall, 0); f {
+											if via == "" {
+												direct = true
+											} else {
+												how = via
+											}
+										}
+									}
+								}
+							}
+						}
+					}
 					why := "no os.WriteFile / (*os.File).Write of this function is handed the result of Encrypt itself"
 					if how != "" {
 						why = "the bytes written come from Encrypt through " + how
